@@ -81,12 +81,18 @@ def to_csv(val):
     # Make sure all individual values do not contain
     # leading or trailing whitespaces.
     unicode_values = list(map(str.strip, map(str, val)))
+    # A single value is saved as it is: the reader only treats
+    # bracketed content as a csv list.
+    if len(unicode_values) == 1:
+        return unicode_values[0]
+
     stream = StringIO()
     writer = csv.writer(stream, dialect="excel")
     writer.writerow(unicode_values)
-    # Strip any csv.writer added carriage return line feeds
-    # and double quotes before saving.
-    csv_string = stream.getvalue().strip().strip('"')
+    # Strip the line terminator added by the csv.writer but keep
+    # the quotes it has put around values containing commas,
+    # quotes or line breaks; the reader needs them.
+    csv_string = stream.getvalue().rstrip("\r\n")
     if len(unicode_values) > 1:
         csv_string = "[" + csv_string + "]"
     return csv_string
